@@ -813,6 +813,19 @@ fn gen_c13(rng: &mut Rng, tier: Tier, index: u64) -> Case {
                 5 | 6 => *rng.pick(&p.semi),
                 _ => p.pick(rng),
             };
+            if rng.chance(0.3) {
+                // the same length through every planner kind, one after the other on this thread, in a drawn order (whatever
+                // planning keeps per thread or per process must not carry over from one planner kind to the next)
+                let mut order = [0u16, 1, 2, 3];
+                rng.shuffle(&mut order);
+                let dir = pick_dir(rng);
+                for pl in order {
+                    ops.push(Op::Plan { planner: pl, len, dir, via: false, slot });
+                    ops.push(checked_call(rng, slot, 4));
+                    slot += 1;
+                }
+                continue;
+            }
             let planner = match rng.below(10) {
                 0..=6 => 0,
                 7 => 1,
